@@ -107,6 +107,10 @@ def _run_one(job):
     return r
 
 
+def _replay_summary(r):
+    return "obligation=%s status=%s key=%s %s" % (r.name, r.status, r.finding_key, (r.detail or "")[:300])
+
+
 def load_known():
     """known_findings.txt lines:  known: property=<id> key=<finding key> <text>   |   fixed: property=<id> <commit> <text>"""
     known = {}
@@ -136,6 +140,13 @@ class Check:
         self.args = ap.parse_args(argv)
         self.pid = pid
         self.level = level
+        self.replay_of = None
+        if self.args.replay:
+            # --replay <file>: re-run exactly the obligation recorded in the replay file (symbolic check + native replay of its
+            # counterexample) against the current tree; exit 1 + VIOLATION if it is still violated, exit 0 if it no longer is
+            import re as _re
+            self.replay_of = json.load(open(self.args.replay))
+            self.args.only = "^" + _re.escape(self.replay_of.get("obligation", "")) + "$"
         self.tier = self.args.tier
         global BUDGET_S
         BUDGET_S = 600 if self.tier == "quick" else 3600
@@ -149,6 +160,25 @@ class Check:
         self.explanation = ""
         self.functions_encoded = set()
         self.replayer = None       # callable(result) -> True/False/None, set by the check
+
+    def _finish_replay(self):
+        rp = self.replay_of
+        if not self.results:
+            print("REPLAY property=%s: obligation %r does not exist in this check any more" % (self.pid, rp.get("obligation")))
+            sys.exit(2)
+        r = self.results[0]
+        if r.status == "violated" and self.replayer is not None:
+            try:
+                r.replayed = self.replayer(r)
+            except Exception as e:
+                r.detail += " [replay error: %s]" % e
+        print("REPLAY property=%s file=%s" % (self.pid, self.args.replay))
+        print("  recorded : key=%s %s" % (rp.get("key"), str(rp.get("detail"))[:200]))
+        print("  now      : " + _replay_summary(r) + (" native_replay=%s" % r.replayed if r.replayed is not None else ""))
+        if r.status == "violated":
+            print("VIOLATION property=%s replay=%s" % (self.pid, self.args.replay))
+            sys.exit(1)
+        sys.exit(0 if r.status == "proved" else 2)
 
     def add(self, name, fn, *args):
         import re
@@ -169,6 +199,8 @@ class Check:
         return self.results
 
     def finish(self):
+        if self.replay_of is not None:
+            return self._finish_replay()
         known = load_known().get(self.pid, {})
         os.makedirs(EVIDENCE, exist_ok=True)
         os.makedirs(REPLAYS, exist_ok=True)
